@@ -262,12 +262,13 @@ def parse_out(line):
         return None
 
 
-def _run(args, text):
-    p = subprocess.run(args, input=text, stdout=subprocess.PIPE, stderr=subprocess.PIPE, universal_newlines=True)
+def _run(args, text, env=None):
+    p = subprocess.run(args, input=text, stdout=subprocess.PIPE, stderr=subprocess.PIPE, universal_newlines=True,
+                       env=dict(os.environ, **env) if env else None)
     return p.returncode, p.stdout.splitlines(), p.stderr
 
 
-def run_lines(exe, lines, jobs=None):
+def run_lines(exe, lines, jobs=None, env=None):
     """Runs `lines` through `exe` in parallel chunks; returns one output line per input line ("" if the process died
     before answering, the CRASH line where it died)."""
     jobs = jobs or min(common.NCPU, max(1, len(lines) // 200))
@@ -275,7 +276,7 @@ def run_lines(exe, lines, jobs=None):
     chunks = [lines[i:i + size] for i in range(0, len(lines), size)]
 
     def one(chunk):
-        rc, out, err = _run([exe], "\n".join(chunk) + "\n")
+        rc, out, err = _run([exe], "\n".join(chunk) + "\n", env)
         out = out[:len(chunk)] + [""] * max(0, len(chunk) - len(out))
         return out
     with ThreadPoolExecutor(max(1, len(chunks))) as ex:
